@@ -176,6 +176,9 @@ def static_obligations(ctx, extra_targets=None):
         ctx.log("coq build FAILED at", where)
         ctx.build_error = out[-3000:]
         return False
+    if not thms:
+        ctx.log("static obligations: no theorem file for", ctx.id)
+        return True
     res, out = coq_assumptions(ctx, thms)
     if res is None:
         for t in thms:
